@@ -99,6 +99,14 @@ Definition kind_eqb (a b : kind) : bool :=
   | _, _ => false
   end.
 
+Definition entry_eqb (a b : entry) : bool :=
+  path_eqb (e_path a) (e_path b) && kind_eqb (e_kind a) (e_kind b) &&
+  N.eqb (e_mode a) (e_mode b) && Z.eqb (e_uid a) (e_uid b) && Z.eqb (e_gid a) (e_gid b) &&
+  option_eqb String.eqb (e_uname a) (e_uname b) && option_eqb String.eqb (e_gname a) (e_gname b) &&
+  String.eqb (e_link a) (e_link b) && N.eqb (e_devmaj a) (e_devmaj b) && N.eqb (e_devmin a) (e_devmin b) &&
+  xattrs_eqb (e_xattrs a) (e_xattrs b) && Z.eqb (e_mtime a) (e_mtime b) && N.eqb (e_mnsec a) (e_mnsec b) &&
+  N.eqb (e_cid a) (e_cid b) && N.eqb (e_size a) (e_size b).
+
 Fixpoint find_entry (p : path) (es : list entry) : option entry :=
   match es with [] => None | e :: r => if path_eqb p (e_path e) then Some e else find_entry p r end.
 
